@@ -663,7 +663,7 @@ def _transparent(e):
         return True
     if isinstance(e, ast.UnaryOp) and isinstance(e.op, ast.Not):
         return True
-    if isinstance(e, ast.Call) and isinstance(e.func, ast.Name) and e.func.id in ("implies", "all", "any", "dict_subset"):
+    if isinstance(e, ast.Call) and isinstance(e.func, ast.Name) and e.func.id in ("implies", "all", "any", "dict_subset", "old_objects_keep"):
         return True
     if isinstance(e, ast.Call) and isinstance(e.func, ast.Name) and C.SPECS.get(e.func.id, {}).get("macro"):
         return True
